@@ -178,11 +178,11 @@ Proof.
   intros s d.
   assert (H1 : hops (shortest_mesh_path s d) = shortest_mesh_path_length s d).
   { rewrite mesh_length_norm. destruct s as [[sx sy] sz], d as [[dx dy] dz].
-    unfold shortest_mesh_path. rewrite minimise_hops. unfold to2d, chip_sub; cbn [fst snd].
+    unfold shortest_mesh_path, mesh_path_component. rewrite minimise_hops. unfold to2d, chip_sub; cbn [fst snd].
     f_equal. f_equal; lia. }
   assert (H2 : chip_add (to2d s) (to2d (shortest_mesh_path s d)) = to2d d).
   { destruct s as [[sx sy] sz], d as [[dx dy] dz].
-    unfold shortest_mesh_path. rewrite minimise_to2d. unfold to2d, chip_add; cbn [fst snd].
+    unfold shortest_mesh_path, mesh_path_component. rewrite minimise_to2d. unfold to2d, chip_add; cbn [fst snd].
     f_equal; lia. }
   repeat split; auto.
   - now rewrite vector_walk_end.
@@ -224,7 +224,7 @@ Lemma torus_length_tlen :
     tlen w h (fst (torus_delta s d w h)) (snd (torus_delta s d w h)).
 Proof.
   intros [[sx sy] sz] [[dx dy] dz] w h.
-  unfold shortest_torus_path_length, torus_delta, tlen; cbn [fst snd].
+  unfold shortest_torus_path_length, torus_delta, torus_head, tlen; cbn [fst snd].
   replace (dx - sx - (dz - sz)) with (dx - dz - (sx - sz)) by lia.
   replace (dy - sy - (dz - sz)) with (dy - dz - (sy - sz)) by lia.
   generalize ((dx - dz - (sx - sz)) mod w) as x. generalize ((dy - dz - (sy - sz)) mod h) as y.
@@ -236,7 +236,7 @@ Lemma torus_delta_to2d :
     torus_delta s d w h =
     ((fst (to2d d) - fst (to2d s)) mod w, (snd (to2d d) - snd (to2d s)) mod h).
 Proof.
-  intros [[sx sy] sz] [[dx dy] dz] w h. unfold torus_delta, to2d; cbn [fst snd].
+  intros [[sx sy] sz] [[dx dy] dz] w h. unfold torus_delta, torus_head, to2d; cbn [fst snd].
   f_equal; f_equal; lia.
 Qed.
 
@@ -361,6 +361,10 @@ Proof.
         -- apply M. now right.
 Qed.
 
+Lemma torus_head_eq :
+  forall s d w h, torus_head s d w h = (w, h, fst (torus_delta s d w h), snd (torus_delta s d w h)).
+Proof. intros [[sx sy] sz] [[dx dy] dz] w h. reflexivity. Qed.
+
 (* the chosen approach is a lattice translate of the reduced displacement of least norm *)
 Lemma torus_choice_spec :
   forall k0 k1 k2 k3 s d w h, 1 <= w -> 1 <= h ->
@@ -374,9 +378,10 @@ Proof.
   { subst x. rewrite torus_delta_to2d. cbn [fst]. apply Z.mod_pos_bound. lia. }
   assert (Hy : 0 <= y < h).
   { subst y. rewrite torus_delta_to2d. cbn [snd]. apply Z.mod_pos_bound. lia. }
-  unfold torus_choice. destruct (torus_delta s d w h) as [dx dy] eqn:Ed. cbn [fst snd] in x, y.
+  unfold torus_choice. rewrite torus_head_eq.
+  destruct (torus_delta s d w h) as [dx dy] eqn:Ed. cbn [fst snd] in *.
   subst x y.
-  unfold torus_approaches, keyed_lex, choose. cbn [combine map].
+  unfold torus_approaches, torus_approaches_src, keyed_lex, choose. cbn [combine map].
   match goal with |- context [argmin_first lex_ltb ?b ?l] =>
     destruct (argmin_first_lex l b) as [I M]; set (r := argmin_first lex_ltb b l) in *
   end.
@@ -812,4 +817,117 @@ Proof.
   intros s d s' d' H1 H2. split.
   - now apply mesh_length_representation.
   - intros w h. now apply torus_length_representation.
+Qed.
+
+(* ================================================================================================
+   Error clauses and table consistency *)
+(* from_vector raises KeyError exactly on the null vector (after the wrap-around collapse) *)
+Lemma links_from_vector_error :
+  forall v, links_from_vector v = None <-> v = (0, 0).
+Proof.
+  intros [x y]. split.
+  - intros H. unfold links_from_vector in H.
+    match type of H with link_direction_lookup (?a, ?b) = _ =>
+      assert (Ha : -1 <= a <= 1 /\ (a = 0 -> x = 0)) by
+        (destruct (Z.abs x >? 1) eqn:E; [destruct (x >? 0); lia | rewrite Z.gtb_ltb in E; apply Z.ltb_ge in E; lia]);
+      assert (Hb : -1 <= b <= 1 /\ (b = 0 -> y = 0)) by
+        (destruct (Z.abs y >? 1) eqn:E; [destruct (y >? 0); lia | rewrite Z.gtb_ltb in E; apply Z.ltb_ge in E; lia]);
+      remember a as a' eqn:Ea; remember b as b' eqn:Eb; clear Ea Eb
+    end.
+    destruct Ha as [Ha Ha0]. destruct Hb as [Hb Hb0].
+    assert (Ca : a' = -1 \/ a' = 0 \/ a' = 1) by lia.
+    assert (Cb : b' = -1 \/ b' = 0 \/ b' = 1) by lia.
+    destruct Ca as [ -> | [ -> | -> ] ]; destruct Cb as [ -> | [ -> | -> ] ]; vm_compute in H;
+      try discriminate. f_equal; auto.
+  - intros E. injection E as -> ->. reflexivity.
+Qed.
+
+(* the dumped dictionaries: _direction_link_lookup holds exactly the six links with their vectors, and
+   every key of _link_direction_lookup leads to a link *)
+Lemma direction_link_lookup_sound :
+  forall k v, direction_link_lookup k = Some v -> exists l, k = link_num l /\ v = link_vec l.
+Proof.
+  intros k v H. unfold direction_link_lookup, direction_link_table in H. cbn [direction_link_lookup_in] in H.
+  repeat match type of H with
+         | (if Z.eqb ?a k then _ else _) = _ =>
+             destruct (Z.eqb_spec a k);
+             [ injection H as <-; subst k;
+               first [ now exists East | now exists NorthEast | now exists North
+                     | now exists West | now exists SouthWest | now exists South ] | ]
+         end.
+  discriminate.
+Qed.
+
+Lemma link_direction_table_links :
+  Forall (fun e => exists l, snd e = link_num l) link_direction_table.
+Proof.
+  unfold link_direction_table.
+  repeat constructor; cbn [snd];
+    first [ now exists East | now exists NorthEast | now exists North
+          | now exists West | now exists SouthWest | now exists South ].
+Qed.
+
+(* a zero width or height: the first step raises ZeroDivisionError; without a step nothing is raised *)
+Lemma ldf_dims_zero_size :
+  forall width height ds p,
+    size_zero width || size_zero height = true ->
+    zeros_last ds -> (exists e, In e ds /\ snd e <> 0) ->
+    ldf_dims ds width height p = OtherError.
+Proof.
+  intros width height ds p Hz. destruct ds as [|[dim mag] ds]; intros Hl (e & He & Hn).
+  - destruct He.
+  - cbn [ldf_dims]. cbn [zeros_last snd] in Hl. destruct Hl as [Hl0 _].
+    destruct (Z.eqb_spec mag 0) as [E0|N0].
+    + exfalso. destruct He as [<-|He]; [cbn in Hn; lia|].
+      specialize (Hl0 E0). rewrite Forall_forall in Hl0. apply Hn. now apply Hl0.
+    + destruct (ldf_delta dim (if mag >? 0 then 1 else -1)) as [dx dy].
+      destruct (Z.to_nat (Z.abs mag)) as [|n] eqn:En; [lia|].
+      cbn [ldf_steps]. unfold ldf_step.
+      destruct width as [w|], height as [h|]; cbn [size_zero orb wrapo] in *;
+        try discriminate;
+        repeat match goal with
+               | |- context [?a =? 0] => destruct (Z.eqb_spec a 0); cbn [bind orb] in *
+               end; try reflexivity; try discriminate.
+Qed.
+
+Lemma ldf_zero_size_error :
+  forall k0 k1 k2 v start width height,
+    0 <= k0 < two53 -> 0 <= k1 < two53 -> 0 <= k2 < two53 ->
+    size_zero width || size_zero height = true ->
+    longest_dimension_first k0 k1 k2 v start width height =
+    if hops v =? 0 then Ok [] else OtherError.
+Proof.
+  intros k0 k1 k2 [[x y] z] start width height H0 H1 H2 Hz.
+  unfold longest_dimension_first.
+  destruct (ldf_order_cases k0 k1 k2 x y z H0 H1 H2) as [Hl Hc].
+  destruct (Z.eqb_spec (hops (x, y, z)) 0) as [E|N]; unfold hops in *.
+  - assert (x = 0 /\ y = 0 /\ z = 0) as (-> & -> & ->) by lia.
+    destruct Hc as [-> | [-> | [-> | [-> | [-> | ->]]]]]; reflexivity.
+  - apply ldf_dims_zero_size; [exact Hz | exact Hl |].
+    assert (C : x <> 0 \/ y <> 0 \/ z <> 0) by lia.
+    destruct C as [C|[C|C]];
+      [exists (0, x) | exists (1, y) | exists (2, z)]; (split; [|exact C]);
+      destruct Hc as [-> | [-> | [-> | [-> | [-> | ->]]]]]; cbn; tauto.
+Qed.
+
+(* ================================================================================================
+   Tie of longest_dimension_first's arithmetic to the source text: the fragments translated on every run
+   (Generated/GenGeometryShapes.v) equal the definitions the model uses *)
+Lemma ldf_source_tie :
+  (forall m, ldf_sign m = (if m >? 0 then 1 else -1)) /\
+  (forall m, ldf_count m = Z.abs m) /\
+  (forall dim sign, 0 <= dim <= 2 -> ldf_delta_src dim sign = ldf_delta dim sign) /\
+  (forall x y dx dy width height,
+      size_zero width || size_zero height = false ->
+      bind (wrapo width (x + dx)) (fun x' => bind (wrapo height (y + dy)) (fun y' => Ok (x', y'))) =
+      Ok (ldf_advance x y dx dy (has_size width) (size_val width) (has_size height) (size_val height))).
+Proof.
+  split; [|split; [|split]].
+  - intros m. unfold ldf_sign. destruct (m >? 0); reflexivity.
+  - intros m. reflexivity.
+  - intros dim sign H. assert (C : dim = 0 \/ dim = 1 \/ dim = 2) by lia.
+    destruct C as [-> | [-> | ->]]; reflexivity.
+  - intros x y dx dy width height H. apply orb_false_iff in H. destruct H as [Hw Hh].
+    unfold ldf_advance. destruct width as [w|], height as [h|];
+      cbn [wrapo size_zero has_size size_val bind] in *; rewrite ?Hw, ?Hh; reflexivity.
 Qed.
